@@ -677,8 +677,12 @@ pub fn proc_fds() -> BTreeSet<i32> {
     }
     s
 }
+/// false only for a descriptor that exists and lacks FD_CLOEXEC (a descriptor closed meanwhile by another thread is fine)
 pub fn fd_cloexec(fd: i32) -> bool {
-    is_cloexec(fd)
+    unsafe {
+        let f = real!("fcntl", unsafe extern "C" fn(i32, i32, libc::c_long) -> i32)(fd, libc::F_GETFD, 0);
+        f < 0 || (f & libc::FD_CLOEXEC) != 0
+    }
 }
 pub fn shared_maps_count() -> usize {
     let s = std::fs::read_to_string("/proc/self/maps").unwrap_or_default();
